@@ -1,5 +1,7 @@
 import IceTie.AgentNomination
 import IceProofs.AgentC20Trace
+import IceProofs.Sys2C20Rest
+import IceProofs.Sys2C20Vocab
 /-!
 # C20 — renomination: the latest nomination wins (single-agent clauses)
 
@@ -7,8 +9,10 @@ Property theorems only.  `C20_accept_code` is stated about the definitions REGEN
 every run; the behaviour theorems are about the executable model `IceModel.AgentCore` (tied to the code by the
 differential correspondence of component `agent`, whose corpus `corpus/C20/agent.ops` holds the F8 scenarios).
 The model follows the code after the F8 fix (a deferred nomination remembers its value).
-Not here: `C20_quiescent_agreement` (two agents, on `IceModel.Sys2`) and `C20_codec` (24-bit attribute
-codec, proved with C16's codec model).
+Two agents (`IceModel.Sys2`, last section): `C20_accepted_le_issued`, `C20_controlled_selects_max_accepted`,
+`C20_controlling_selects_last_answered`, `C20_quiescent_agreement_partial` for ALL schedules of an exchange, with
+witnesses for every hypothesis the proof forced (each replayed on the real agents, see notes/C20sys.md).
+Not here: `C20_codec` (24-bit attribute codec, proved with C16's codec model).
 -/
 namespace IceProps.C20
 open IceModel IceModel.AgentCore IceProofs.Agent IceTie.AgentNomination
@@ -528,5 +532,381 @@ example : dgramsOf (step exAgent (.renominate 1 16 0 5)).2 = []
     ∧ dgramsOf (step { exCtl with cfg := {} } (.renominate 1 16 0 5)).2 = []
     ∧ dgramsOf (step exCtl (.renominate 1 16 3 5)).2 = [] ∧ dgramsOf (step exCtl (.renominate 1 17 0 5)).2 = [] := by
   decide
+
+/-! ## Two agents: the exchange on `Sys2` (sentence 2 of the property)
+
+System: `IceModel.Sys2` (two `AgentCore` agents A = `false`, B = `true`, a hub that holds every datagram until the
+schedule delivers, duplicates or drops it, a NAT map, one-way blocks) as the transition system
+`IceProofs.Sys2Run` (`SysEv`: API call of either agent, `deliver k`, `dup k`, `drop k`, `advance now`).
+
+Vocabulary (`IceProofs.C20S`; every item is a decidable, executable definition):
+* `Fresh s0` — two freshly created agents (no candidates, pairs, selection, transactions, caches), nothing in flight;
+  configuration, credentials, tie-breakers, topology arbitrary.
+* `Established s1` — the session is up and renomination has not begun: `Session s1` (both started and open, A
+  controlling, B controlled and a full agent, nobody Failed); A has a selected pair; NO nomination in flight, neither
+  valued nor ordinary (USE-CANDIDATE request); A has no valued transaction outstanding; B has accepted no value; no pair
+  of B carries a deferred-nomination mark.
+* `Exchange s1 ex` — the course of the exchange: no Restart, no Close, and every state along `ex` is a `Session`
+  (so: no role conflict lost, nobody enters Failed).  Everything else is allowed: any API call (signalling of further
+  candidates, data, ticks …), any delivery order, duplication, loss.
+* `hist s1 ex : Hist` — the monotone history of the exchange, accumulated over the agent events the schedule makes the
+  agents execute (`microEvs`), each judged in the state the agent executes it in:
+  `issued` = the log of nominations A issued (`issueOf`: `RenominateCandidate` answered `ok`; entry = value, local
+  address, remote address); `answered` = the nomination whose success response A processed last (`answerOf`: an
+  authenticated response that matches an outstanding, unexpired, symmetric transaction of a listed pair);
+  `accepted` = the value B accepted last (`accepted` of the single-agent theorems) with the local address the request
+  arrived on and its source address.
+* `Quiesced s` — "the exchange has quiesced": (1) no STUN message carrying a nomination value is in flight, (2) A has
+  no nomination transaction outstanding, (3) B has no deferred nomination waiting for the validation of its pair.
+  Conjunct by conjunct against the text: (1) a request still in flight can be accepted and move B, its response can
+  move A; (2) an outstanding transaction means a response may still come (or came and is among (1)); without (1)+(2)
+  the selections can still change, with them no event other than a NEW `RenominateCandidate` changes them
+  (`answerOf`/`acceptAt` need a valued transaction / message); (3) a deferred nomination waiting for its pair's check is
+  a nomination B has accepted but not yet acted upon — B's selection still lags behind its own `lastNomination`.
+  Only (3) is used by the proof of the agreement theorem (the premise `hA` below already pins the traffic that
+  matters); (1) and (2) make the state final (`C20_quiesced_rests`); satisfiable: see the example (three renominations, requests out of order and duplicated).
+* `mirror nat la ra = (unmapped ra, mapped la)` — the mirror image modulo NAT of A's address pair `(la, ra)`, as in
+  `C01_mirror_partial`: B's local address is the real address behind `ra`, B's remote address is `la` seen through the
+  NAT.  `selAddrs x` = (local address, remote address) of the selected pair of agent `x`.
+-/
+section TwoAgents
+open IceModel.Sys2 (Sys Dgram)
+open IceProofs.Sys2Run IceProofs.C20S
+
+/-- **C20_history_vocabulary** — the three kinds of step the history records, unfolded (any state, any event):
+* `issueOf a e = some (v, la, ra)` iff `e` is `RenominateCandidate la ri v` on a controlling agent with the feature
+  enabled, `la` is the address of a local candidate, `ra` the address of remote candidate number `ri`, and their pair
+  exists — which is exactly when `step` answers `ok` (otherwise it answers an error and sends nothing,
+  `C20_only_controlling_enabled`);
+* `answerOf a e = some (pd, id)` iff `e` delivers, to an open started agent on an existing local candidate, a Binding
+  success response with MESSAGE-INTEGRITY under the remote password from a known source, `pd` is the outstanding,
+  unexpired transaction with its id (`takePending`), the response is symmetric to it (`responseSymmetric`: network
+  type, destination, source) and `id` is the pair of the two candidates;
+* `acceptAt a e = some (v, la, src)` iff `e = .inbound _ la src _` and `accepted a e = some v` (`C20_offer_iff`,
+  `C20_accept_step`: the controlled selector is handed the value and `shouldAcceptNomination` accepts it). -/
+theorem C20_history_vocabulary (a : Agent) (e : Ev) :
+    (∀ v la ra, issueOf a e = some (v, la, ra) ↔
+      ∃ now ri l r, e = .renominate now la ri v ∧ a.controlling = true ∧ a.cfg.enableRenomination = true ∧
+        a.localByAddr la = some l ∧ a.remotes[ri]? = some r ∧ (a.findPair l r).isSome = true ∧ ra = r.addr) ∧
+    (∀ now la ri v, (issueOf a (.renominate now la ri v)).isSome = true ↔
+      Out.res "ok" ∈ (step a (.renominate now la ri v)).2) ∧
+    (∀ pd id, answerOf a e = some (pd, id) ↔
+      ∃ now la src m l r p, e = .inbound now la src m ∧ a.closed = false ∧ a.started = true ∧
+        a.localByAddr la = some l ∧ m.method = 1 ∧ m.cls = 2 ∧ m.key = some a.remotePwd ∧
+        a.findRemote l.net src = some r ∧ (a.takePending now m.tid).2 = some pd ∧
+        pd.net = l.net ∧ pd.dest = src ∧ pd.src = l.addr ∧ a.findPair l r = some p ∧ p.id = id) ∧
+    (∀ v la src, acceptAt a e = some (v, la, src) ↔ ∃ now m, e = .inbound now la src m ∧ accepted a e = some v) := by
+  refine ⟨fun v la ra => issueOf_iff a e v la ra, fun now la ri v => issueOf_iff_ok a now la ri v,
+    fun pd id => answerOf_iff a e pd id, fun v la src => ?_⟩
+  cases e with
+  | inbound now la' src' m =>
+    simp only [acceptAt, Option.map_eq_some_iff, Prod.mk.injEq, Ev.inbound.injEq]
+    constructor
+    · rintro ⟨v', h1, rfl, rfl, rfl⟩
+      exact ⟨now, m, ⟨rfl, rfl, rfl, rfl⟩, h1⟩
+    · rintro ⟨now', m', ⟨_, rfl, rfl, _⟩, h1⟩
+      exact ⟨v, h1, rfl, rfl, rfl⟩
+  | _ =>
+    constructor
+    · intro h; cases h
+    · rintro ⟨_, _, h, _⟩; cases h
+
+/-- **C20_accepted_le_issued** — in every state of every exchange, the highest value B has accepted was issued by A
+(`RenominateCandidate` answered `ok` with that value).  No credential hypothesis: the system is closed, a nomination
+value enters the wire only through `RenominateCandidate` (`IceProofs.C20S.step_out_nom`, any state, any event). -/
+theorem C20_accepted_le_issued (s0 : Sys) (pre ex : List SysEv) (s1 s : Sys) (hs1 : s1 = Sys.runs s0 pre)
+    (hs : s = Sys.runs s1 ex) (hf : Fresh s0) (he : Established s1) (hex : Exchange s1 ex)
+    (hz : PositiveValues (hist s1 ex).issued) (v : Nat) (hv : s.b.lastNomination = some v) :
+    ∃ la ra, (v, la, ra) ∈ (hist s1 ex).issued := by
+  subst hs1 hs
+  exact accepted_le_issued hf pre ex he hex hz v hv
+
+/-- **C20_controlled_selects_max_accepted** — in every state of every exchange: B's highest accepted value `v` was
+issued by A on an address pair `(la, ra)`, B accepted it on the mirror image of that pair (modulo NAT), and that pair
+is B's selected pair — or still carries `v` as a deferred nomination (`nomOnSuccess`, `deferredNom = some v`, not yet
+valid).  So after every nomination-driven switch B's selection carries B's largest accepted value, whatever the arrival
+order, duplication or loss of requests and responses, and whatever the priorities. -/
+theorem C20_controlled_selects_max_accepted (s0 : Sys) (pre ex : List SysEv) (s1 s : Sys)
+    (hs1 : s1 = Sys.runs s0 pre) (hs : s = Sys.runs s1 ex) (hf : Fresh s0) (he : Established s1)
+    (hex : Exchange s1 ex) (hz : PositiveValues (hist s1 ex).issued) (v : Nat)
+    (hv : s.b.lastNomination = some v) :
+    ∃ la ra, (v, la, ra) ∈ (hist s1 ex).issued ∧
+      (hist s1 ex).accepted = some (v, (mirror s0.nat la ra).1, (mirror s0.nat la ra).2) ∧
+      (selAddrs s.b = some (mirror s0.nat la ra) ∨
+       ∃ p ∈ s.b.checklist, pairAddrs s.b p.id = some (mirror s0.nat la ra) ∧
+         p.nomOnSuccess = true ∧ p.deferredNom = some v ∧ p.state ≠ .succeeded) := by
+  subst hs1 hs
+  exact controlled_selects_max_accepted hf pre ex he hex hz v hv
+
+/-- **C20_controlling_selects_last_answered** — in every state of every exchange A's selected pair is the pair of the
+nomination whose success response A processed LAST (not: of the highest value — see the witnesses below). -/
+theorem C20_controlling_selects_last_answered (s0 : Sys) (pre ex : List SysEv) (s1 s : Sys)
+    (hs1 : s1 = Sys.runs s0 pre) (hs : s = Sys.runs s1 ex) (hf : Fresh s0) (he : Established s1)
+    (hex : Exchange s1 ex) (hz : PositiveValues (hist s1 ex).issued) (x : Nomination)
+    (hx : (hist s1 ex).answered = some x) :
+    x ∈ (hist s1 ex).issued ∧ selAddrs s.a = some (x.2.1, x.2.2) := by
+  subst hs1 hs
+  exact controlling_selects_last_answered hf pre ex he hex hz x hx
+
+/-- **C20_answered_le_accepted** — in every state of every exchange: B has handed the nomination whose response A
+processed last to its selector, so B's highest accepted value is at least that nomination's value.  (Transaction ids:
+A hands out even ids below `2·nextTid`, B odd ids; a request in flight with the id of an outstanding valued transaction
+of A is that nomination and carries ICE-CONTROLLING, so A itself never answers it; a success response with that id
+was emitted by B's controlled selector after `shouldAcceptNomination`.) -/
+theorem C20_answered_le_accepted (s0 : Sys) (pre ex : List SysEv) (s1 s : Sys)
+    (hs1 : s1 = Sys.runs s0 pre) (hs : s = Sys.runs s1 ex) (hf : Fresh s0) (he : Established s1)
+    (hex : Exchange s1 ex) (hz : PositiveValues (hist s1 ex).issued) (x : Nomination)
+    (hx : (hist s1 ex).answered = some x) :
+    ∃ last, s.b.lastNomination = some last ∧ x.1 ≤ last := by
+  subst hs1 hs
+  exact answered_le_accepted hf pre ex he hex hz x hx
+
+/-- **C20_quiescent_agreement_partial.**
+
+FULL statement (property text, FALSE for the code — witnesses below): in every quiesced state of an exchange both
+agents have selected the mirror-image pair on which A issued the highest nomination value, for all arrival orders,
+duplications and losses.
+
+PROVED, for ALL schedules `pre` (from two fresh agents to an established session) and `ex` (the exchange): if the
+exchange has quiesced, `x = (v, la, ra)` is the nomination with the highest value A issued (the only one with that
+value, all values positive) and (`hA`) the success response A processed last is the one of `x`, THEN A's selected pair
+is `(la, ra)` and B's selected pair is its mirror image modulo NAT.  (That B has accepted `v` follows:
+`C20_answered_le_accepted` and `C20_accepted_le_issued`.)
+
+What is missing relative to the full statement, and why (each is forced — the conclusion is false without it, in the
+model AND on the real agents; see the `…_witness` theorems and notes/C20sys.md):
+* `hA`: the controlling side switches on EVERY success response to a valued nomination, in arrival order, and the
+  controlled side answers a rejected nomination with a success response too — so responses processed out of order, or
+  values issued in non-increasing order, leave A on a pair that does not carry the highest value;
+  a lost nomination (request or response) is never retransmitted, so A may never process the response of `x`.
+* `Established`: "no ordinary nomination in flight" and "no deferred-nomination mark at B" — an ordinary (value-less)
+  nomination, or a success response on a pair that once deferred an ordinary nomination (the mark is never cleared),
+  moves B back to a higher-priority pair although B has accepted a value since.
+* `Exchange`: no Restart / Close / Failed / lost role conflict while the exchange runs (these re-install the selector
+  or wipe the checklist; `C20_reset_clears`). -/
+theorem C20_quiescent_agreement_partial (s0 : Sys) (pre ex : List SysEv) (s1 s : Sys)
+    (hs1 : s1 = Sys.runs s0 pre) (hs : s = Sys.runs s1 ex) (hf : Fresh s0) (he : Established s1)
+    (hex : Exchange s1 ex) (hz : PositiveValues (hist s1 ex).issued) (x : Nomination)
+    (hq : Quiesced s) (hmax : IsMax (hist s1 ex).issued x) (hA : (hist s1 ex).answered = some x) :
+    selAddrs s.a = some (x.2.1, x.2.2) ∧ selAddrs s.b = some (mirror s0.nat x.2.1 x.2.2) := by
+  subst hs1 hs
+  exact quiescent_agreement' hf pre ex he hex hz x hq hmax hA
+
+/-- **C20_quiesced_rests** — `Quiesced` is final: from a quiesced state of an exchange, along EVERY continuation `ex2`
+in which A does not call `RenominateCandidate` again (`ExchangeK rests`: no Restart / Close / RenominateCandidate among
+the API events, every state a `Session`) — any deliveries, duplicates, drops, ticks, signalling, data — the state stays
+quiesced and both agents keep their selected pair (same pair id, same addresses).  So with conjuncts (1) and (2) of
+`Quiesced` no datagram in flight can still change a selection. -/
+theorem C20_quiesced_rests (s0 : Sys) (pre ex ex2 : List SysEv) (s1 s s2 : Sys) (hs1 : s1 = Sys.runs s0 pre)
+    (hs : s = Sys.runs s1 ex) (hs2 : s2 = Sys.runs s ex2) (hf : Fresh s0) (he : Established s1)
+    (hex : Exchange s1 ex) (hz : PositiveValues (hist s1 ex).issued) (hq : Quiesced s)
+    (hex2 : ExchangeK rests s ex2) :
+    Quiesced s2 ∧ s2.a.selected = s.a.selected ∧ s2.b.selected = s.b.selected ∧
+    (∀ x, selAddrs s.a = some x → selAddrs s2.a = some x) ∧ (∀ x, selAddrs s.b = some x → selAddrs s2.b = some x) := by
+  subst hs1 hs hs2
+  exact quiesced_rests hf pre ex ex2 he hex hz hq hex2
+
+end TwoAgents
+
+/-! ### non-vacuity and witnesses (two real-agent replays of each are in corpus/C20/agent.ops) -/
+
+namespace Sys2Example
+open IceModel.Sys2 (Sys)
+open IceProofs.Sys2Run
+/-- A (tie-breaker 9, renomination enabled) with one host candidate at address 16; B (tie-breaker 5) with two host
+candidates at 176 (high priority) and 192 (lower priority); no NAT -/
+def s0 : Sys :=
+  { a := { cfg := { enableRenomination := true }, tieBreaker := 9, localUfrag := "uA0", localPwd := "pA0" },
+    b := { tag := 1, tieBreaker := 5, localUfrag := "uB0", localPwd := "pB0" }, hasB := true }
+def hostA : Cand := { uid := 0, ty := 1, net := 0, addr := 16, prio := 2130706431 }
+def hostB1 : Cand := { uid := 0, ty := 1, net := 0, addr := 176, prio := 2130706431 }
+def hostB2 : Cand := { uid := 0, ty := 1, net := 0, addr := 192, prio := 2130706175 }
+def dl (l : List Nat) : List SysEv := l.map .deliver
+def drain (n : Nat) : List SysEv := List.replicate n (.deliver 0)
+/-- candidates, signalling, A starts controlling, B controlled -/
+def setup : List SysEv :=
+  [.api false (.addLocal 0 hostA), .api true (.addLocal 0 hostB1), .api true (.addLocal 0 hostB2),
+   .api false (.addRemote 0 hostB1), .api false (.addRemote 0 hostB2), .api true (.addRemote 0 hostA),
+   .api false (.start 0 true "uB0" "pB0"), .api true (.start 0 false "uA0" "pA0")]
+/-- … checks, the ordinary nomination of pair 16–176 and everything else delivered: both agents on 16–176 -/
+def pre : List SysEv := setup ++ drain 12 ++ [.advance 200000000] ++ drain 12
+/-- three renominations (1 on 16–192, 2 on 16–176, 3 on 16–192); B receives request 3 first (a duplicate), then 1,
+then 3 again, then 2; A processes the responses of 1, 2, 3 in this order, the second response to 3 last -/
+def exOk : List SysEv :=
+  [.api false (.renominate 200000000 16 1 1), .api false (.renominate 200000000 16 0 2),
+   .api false (.renominate 200000000 16 1 3), .dup 2] ++ dl [0, 1, 0, 1, 2, 0, 0]
+/-- after `exOk`: two keepalive rounds with everything delivered, a duplicate and a drop -/
+def exRest : List SysEv :=
+  [.advance 2200000000] ++ drain 2 ++ [.dup 0] ++ drain 3 ++ [.advance 4400000000, .drop 0] ++ drain 4
+/-- two renominations with increasing values (1 on 16–192, 2 on 16–176), requests delivered in order, the two
+responses in reverse order -/
+def exReordered : List SysEv :=
+  [.api false (.renominate 200000000 16 1 1), .api false (.renominate 200000000 16 0 2)] ++ dl [0, 0, 1, 0]
+/-- value 5 on 16–192 (completed), then value 3 on 16–176: B rejects it and answers with a success response -/
+def exDecreasing : List SysEv :=
+  [.api false (.renominate 200000000 16 1 5)] ++ dl [0, 0] ++ [.api false (.renominate 200000000 16 0 3)] ++ dl [0, 0]
+/-- value 1 on 16–192 (completed), then value 2 on 16–176 whose request is dropped; 4.1 s later the transaction has
+expired (two keepalive rounds delivered) -/
+def exLost : List SysEv :=
+  [.api false (.renominate 200000000 16 1 1)] ++ dl [0, 0] ++ [.api false (.renominate 200000000 16 0 2), .drop 0,
+   .advance 4300000000] ++ drain 8
+/-- as `pre`, but A's tick sends a second ordinary nomination of 16–176 and the first one is still in flight -/
+def preStale : List SysEv := setup ++ drain 8 ++ [.advance 200000000] ++ dl [0, 1, 0, 3, 1, 1, 1, 1, 1, 1]
+/-- one renomination (1 on 16–192), completed on both sides; then the stale ordinary nomination arrives -/
+def exStale : List SysEv := [.api false (.renominate 200000000 16 1 1)] ++ dl [1, 1, 1, 1, 1, 1] ++ dl [0, 0, 0, 0, 0]
+/-- A's ordinary nomination of 16–176 reaches B before B's own check of that pair has succeeded (deferred, mark set,
+then completed); after 2 s B's keepalive on the pair is in flight -/
+def preMarked : List SysEv :=
+  setup ++ dl [0, 3] ++ [.advance 200000000] ++ dl [4, 1, 7] ++ drain 14 ++ [.advance 2200000000] ++ dl [1, 0, 1]
+/-- one renomination (1 on 16–192), completed on both sides; then the keepalive is answered -/
+def exMarked : List SysEv := [.api false (.renominate 2200000000 16 1 1)] ++ dl [1, 1] ++ dl [0, 0]
+
+/-- the same agents with A behind a NAT: A's address 16 is seen as 336 -/
+def s0Nat : Sys := { s0 with nat := [(16, 336)] }
+/-- A's server-reflexive candidate, as signalled to B -/
+def srflxA : Cand := { uid := 0, ty := 2, net := 0, addr := 336, prio := 1694498815, rel := some 16 }
+def setupNat : List SysEv :=
+  [.api false (.addLocal 0 hostA), .api true (.addLocal 0 hostB1), .api true (.addLocal 0 hostB2),
+   .api false (.addRemote 0 hostB1), .api false (.addRemote 0 hostB2), .api true (.addRemote 0 srflxA),
+   .api false (.start 0 true "uB0" "pB0"), .api true (.start 0 false "uA0" "pA0")]
+def preNat : List SysEv :=
+  setupNat ++ drain 12 ++ [.advance 200000000] ++ drain 12 ++ [.advance 400000000] ++ drain 12 ++
+    [.advance 600000000] ++ drain 12
+def exNat : List SysEv :=
+  [.api false (.renominate 600000000 16 1 1), .api false (.renominate 600000000 16 0 2),
+   .api false (.renominate 600000000 16 1 3), .dup 2] ++ dl [0, 1, 0, 1, 2, 0, 0]
+end Sys2Example
+
+/-- glue: the initial state of the examples is `Fresh` -/
+theorem C20_example_fresh : IceProofs.C20S.Fresh Sys2Example.s0 :=
+  ⟨⟨rfl, rfl, rfl, rfl, rfl, rfl, rfl, rfl, rfl, rfl, rfl, rfl, rfl, rfl, rfl⟩,
+   ⟨rfl, rfl, rfl, rfl, rfl, rfl⟩, ⟨rfl, rfl, rfl, rfl, rfl, rfl⟩⟩
+
+section TwoAgentExamples
+open IceModel.Sys2 (Sys Dgram)
+open IceProofs.Sys2Run IceProofs.C20S Sys2Example
+
+set_option maxRecDepth 100000 in
+/-- **Non-vacuity.**  Every hypothesis of `C20_quiescent_agreement_partial` holds on a run with three renominations
+whose requests arrive out of order and duplicated: session established, exchange, positive values, quiesced,
+`(3, 16, 192)` the highest nomination, answered last, accepted by B — and indeed A ends on 16–192, B on 192–16. -/
+example : Established (Sys.runs s0 pre) ∧ Exchange (Sys.runs s0 pre) exOk
+    ∧ hist (Sys.runs s0 pre) exOk
+        = { issued := [(1, 16, 192), (2, 16, 176), (3, 16, 192)], answered := some (3, 16, 192), accepted := some (3, 192, 16) }
+    ∧ PositiveValues (hist (Sys.runs s0 pre) exOk).issued ∧ IsMax (hist (Sys.runs s0 pre) exOk).issued (3, 16, 192)
+    ∧ Quiesced (Sys.runs (Sys.runs s0 pre) exOk)
+    ∧ (Sys.runs (Sys.runs s0 pre) exOk).b.lastNomination = some 3
+    ∧ selAddrs (Sys.runs s0 pre).a = some (16, 176) ∧ selAddrs (Sys.runs s0 pre).b = some (176, 16)
+    ∧ selAddrs (Sys.runs (Sys.runs s0 pre) exOk).a = some (16, 192)
+    ∧ selAddrs (Sys.runs (Sys.runs s0 pre) exOk).b = some (192, 16) ∧ mirror s0.nat 16 192 = (192, 16) := by
+  decide
+
+set_option maxRecDepth 100000 in
+/-- hypotheses of `C20_quiesced_rests` on the same run, continued by keepalive traffic (duplicated, dropped) -/
+example : ExchangeK rests (Sys.runs (Sys.runs s0 pre) exOk) exRest
+    ∧ Quiesced (Sys.runs (Sys.runs (Sys.runs s0 pre) exOk) exRest)
+    ∧ selAddrs (Sys.runs (Sys.runs (Sys.runs s0 pre) exOk) exRest).a = some (16, 192)
+    ∧ selAddrs (Sys.runs (Sys.runs (Sys.runs s0 pre) exOk) exRest).b = some (192, 16) := by
+  decide
+
+set_option maxRecDepth 100000 in
+/-- … and modulo a NAT: A's address 16 is mapped to 336; B's pairs are 176–336 and 192–336; after the same three
+renominations A is on 16–192 and B on its mirror image 192–336. -/
+example : Established (Sys.runs s0Nat preNat) ∧ Exchange (Sys.runs s0Nat preNat) exNat
+    ∧ hist (Sys.runs s0Nat preNat) exNat
+        = { issued := [(1, 16, 192), (2, 16, 176), (3, 16, 192)], answered := some (3, 16, 192), accepted := some (3, 192, 336) }
+    ∧ Quiesced (Sys.runs (Sys.runs s0Nat preNat) exNat)
+    ∧ selAddrs (Sys.runs s0Nat preNat).a = some (16, 176) ∧ selAddrs (Sys.runs s0Nat preNat).b = some (176, 336)
+    ∧ selAddrs (Sys.runs (Sys.runs s0Nat preNat) exNat).a = some (16, 192)
+    ∧ selAddrs (Sys.runs (Sys.runs s0Nat preNat) exNat).b = some (192, 336) ∧ mirror s0Nat.nat 16 192 = (192, 336) := by
+  decide
+
+set_option maxRecDepth 100000 in
+/-- **`hA` is forced (responses out of order).**  Without the premise "the response A processed last is the one of the
+highest nomination" the theorem is false: values 1 and 2 issued in increasing order, requests delivered in order, all
+other hypotheses hold (also: B has accepted the highest value) — A processes the response to 2 before the response to 1 and ends on the pair of
+value 1 while B is on the mirror image of the pair of value 2.  Replayed on the real agents. -/
+theorem C20_quiescent_agreement_needs_answered_last_witness :
+    ¬ (∀ (s0 : Sys) (pre ex : List SysEv) (s1 s : Sys), s1 = Sys.runs s0 pre → s = Sys.runs s1 ex → Fresh s0 →
+        Established s1 → Exchange s1 ex → PositiveValues (hist s1 ex).issued → ∀ x : Nomination,
+        Quiesced s → IsMax (hist s1 ex).issued x → s.b.lastNomination = some x.1 →
+        selAddrs s.a = some (x.2.1, x.2.2) ∧ selAddrs s.b = some (mirror s0.nat x.2.1 x.2.2)) := by
+  intro h
+  have := h s0 pre exReordered _ _ rfl rfl C20_example_fresh (by decide) (by decide) (by decide) (2, 16, 176) (by decide) (by decide)
+    (by decide)
+  revert this
+  decide
+
+set_option maxRecDepth 100000 in
+/-- the same with non-increasing values: 5 then 3 — B rejects 3 but answers it, A switches to the pair of 3 -/
+example : Established (Sys.runs s0 pre) ∧ Exchange (Sys.runs s0 pre) exDecreasing
+    ∧ hist (Sys.runs s0 pre) exDecreasing
+        = { issued := [(5, 16, 192), (3, 16, 176)], answered := some (3, 16, 176), accepted := some (5, 192, 16) }
+    ∧ Quiesced (Sys.runs (Sys.runs s0 pre) exDecreasing)
+    ∧ selAddrs (Sys.runs (Sys.runs s0 pre) exDecreasing).a = some (16, 176)
+    ∧ selAddrs (Sys.runs (Sys.runs s0 pre) exDecreasing).b = some (192, 16) := by
+  decide
+
+set_option maxRecDepth 100000 in
+/-- … and with loss: a nomination is never retransmitted.  The request of the highest value is dropped, its transaction
+expires; the state is quiesced, all other hypotheses hold, both agents stay on the pair of value 1 (`hA` is
+false: nobody ever learns of value 2 on 16–176). -/
+example : Established (Sys.runs s0 pre) ∧ Exchange (Sys.runs s0 pre) exLost
+    ∧ hist (Sys.runs s0 pre) exLost
+        = { issued := [(1, 16, 192), (2, 16, 176)], answered := some (1, 16, 192), accepted := some (1, 192, 16) }
+    ∧ IsMax (hist (Sys.runs s0 pre) exLost).issued (2, 16, 176)
+    ∧ Quiesced (Sys.runs (Sys.runs s0 pre) exLost)
+    ∧ selAddrs (Sys.runs (Sys.runs s0 pre) exLost).a = some (16, 192)
+    ∧ selAddrs (Sys.runs (Sys.runs s0 pre) exLost).b = some (192, 16) := by
+  decide
+
+/-- `Established` without "no ordinary nomination in flight" -/
+def EstablishedButOrdinaryInFlight (s : Sys) : Prop :=
+  Session s ∧ s.a.selected.isSome = true ∧ (∀ d ∈ s.inflight, valFree d = true) ∧
+  (∀ pd ∈ s.a.pending, pd.nom = none) ∧ s.b.lastNomination = none ∧
+  (∀ p ∈ s.b.checklist, p.nomOnSuccess = false ∧ p.deferredNom = none)
+instance (s : Sys) : Decidable (EstablishedButOrdinaryInFlight s) := by
+  unfold EstablishedButOrdinaryInFlight; infer_instance
+
+set_option maxRecDepth 100000 in
+/-- **"No ordinary nomination in flight" is forced.**  An ordinary nomination of the high-priority pair that is still
+in flight when the renomination to the lower-priority pair completes moves B back when it arrives: every other
+hypothesis holds (`hA` too, and B has accepted the value), A is on 16–192, B on 176–16.  Replayed on the real agents. -/
+theorem C20_quiescent_agreement_needs_no_ordinary_nomination_witness :
+    ¬ (∀ (s0 : Sys) (pre ex : List SysEv) (s1 s : Sys), s1 = Sys.runs s0 pre → s = Sys.runs s1 ex → Fresh s0 →
+        EstablishedButOrdinaryInFlight s1 → Exchange s1 ex → PositiveValues (hist s1 ex).issued → ∀ x : Nomination,
+        Quiesced s → IsMax (hist s1 ex).issued x → (hist s1 ex).answered = some x → s.b.lastNomination = some x.1 →
+        selAddrs s.a = some (x.2.1, x.2.2) ∧ selAddrs s.b = some (mirror s0.nat x.2.1 x.2.2)) := by
+  intro h
+  have := h s0 preStale exStale _ _ rfl rfl C20_example_fresh (by decide) (by decide) (by decide) (1, 16, 192) (by decide)
+    (by decide) (by decide) (by decide)
+  revert this
+  decide
+
+/-- `Established` without "no deferred-nomination mark at B" -/
+def EstablishedButMarked (s : Sys) : Prop :=
+  Session s ∧ s.a.selected.isSome = true ∧ (∀ d ∈ s.inflight, nomFree d = true) ∧
+  (∀ pd ∈ s.a.pending, pd.nom = none) ∧ s.b.lastNomination = none ∧
+  (∀ p ∈ s.b.checklist, p.deferredNom = none)
+instance (s : Sys) : Decidable (EstablishedButMarked s) := by unfold EstablishedButMarked; infer_instance
+
+set_option maxRecDepth 100000 in
+/-- **"No deferred-nomination mark at B" is forced.**  B's selected pair was nominated through the deferred path (the
+mark `nomOnSuccess` is never cleared); a keepalive of B on that pair is outstanding when the renomination to the
+lower-priority pair completes; its success response re-runs the ordinary-nomination rule and moves B back.  No
+reordering, no loss, no duplication.  Every other hypothesis holds (`hA` too, and B has accepted the value).  Replayed on the real
+agents. -/
+theorem C20_quiescent_agreement_needs_no_deferred_mark_witness :
+    ¬ (∀ (s0 : Sys) (pre ex : List SysEv) (s1 s : Sys), s1 = Sys.runs s0 pre → s = Sys.runs s1 ex → Fresh s0 →
+        EstablishedButMarked s1 → Exchange s1 ex → PositiveValues (hist s1 ex).issued → ∀ x : Nomination,
+        Quiesced s → IsMax (hist s1 ex).issued x → (hist s1 ex).answered = some x → s.b.lastNomination = some x.1 →
+        selAddrs s.a = some (x.2.1, x.2.2) ∧ selAddrs s.b = some (mirror s0.nat x.2.1 x.2.2)) := by
+  intro h
+  have := h s0 preMarked exMarked _ _ rfl rfl C20_example_fresh (by decide) (by decide) (by decide) (1, 16, 192) (by decide)
+    (by decide) (by decide) (by decide)
+  revert this
+  decide
+
+end TwoAgentExamples
 
 end IceProps.C20
